@@ -207,7 +207,8 @@ def inapplicable(mol_h, match, seq):
     """Is there an edit this match cannot take?  Plain counting on the matched
     atoms: a radical decrease on an atom that has no radical electron left, or
     an increase / decrease of the order of a bond that is aromatic (order 1.5)
-    at that moment (or already quintuple)."""
+    at that moment (or already quintuple), or the formation of a bond between
+    two atoms that are bonded at that moment."""
     rad, order = {}, {}
     for e in seq:
         k = e[0]
@@ -234,6 +235,11 @@ def inapplicable(mol_h, match, seq):
         if k == 'break':
             order[(a, b)] = None
         elif k == 'form':
+            if order[(a, b)] is not None:
+                # the two matched atoms are already bonded in this molecule
+                # (the pattern does not say so: e.g. the ends of a three-atom
+                # chain matched on a three-membered ring)
+                return True
             order[(a, b)] = ruleref.ORD[e[3] or 'single']
         elif k == 'modify':
             order[(a, b)] = ruleref.ORD[e[3]]
